@@ -392,8 +392,8 @@ def eval_cases(ctx):
         s = render(e, rng)
         for _ in range(rng.choice([1, 1, 2])):
             s = mutate(s, rng)
-        if "[" in s or "]" in s:
-            continue
+        if "[" in s or "]" in s or re.search(r"(?<![A-Za-z0-9_])_(?![A-Za-z0-9_])", s):
+            continue            # no arrays (outside the model); no bare `_` (a shell-maintained variable)
         k += 1
         cases.append(("0", s, gen_env(rng) if rng.random() < 0.5 else {}, "mutated"))
     return cases
